@@ -32,7 +32,8 @@ RULE = ('transform cases: every shape in {1..9}^2 (all parity pairs, square and 
 ASSUMPTIONS = ['scipy.fft.fft/ifft/fft2/ifft2 compute the (iterated 1-D) DFT sums with the stated normalisation; fftshift/ifftshift '
                'rotate by n//2; next_fast_len(k) >= k (modelled as parameters with that contract)',
                'np.exp / np.sqrt / matmul / broadcasting (trusted); comparison tolerance 1e-9*max(1,|x|max) in float64, '
-               'max(5e-5, 5e-7 * longest axis) in float32 on standard-normal inputs (conditioning: unitary-like maps, no cancellation)',
+               'max(5e-5, 5e-7 * longest axis, 8 eps32 * largest chirp phase) in float32 on standard-normal inputs (conditioning: '
+               'unitary-like maps, no cancellation; single-precision phase rounding calibrated on the clean tree)',
                'Float evaluation of the Lean model (cos/sin of 2*pi*t in IEEE double) stands for the exact model; the large-size tier '
                'uses a NumPy double sum as oracle (the Lean oracle is an interpreted O(n^4) sum)']
 
@@ -218,12 +219,26 @@ def tol32(nmax):
     return max(TOL32, 5e-7 * nmax)
 
 
+def phase_max(case):
+    """largest chirp / kernel phase (radians) the engines form: pi * alpha_a * (max(n_a, M_a) + |shift_a|)^2 per axis.  In single
+    precision these phases are rounded to ~eps32 * phase, which bounds the accuracy of Bluestein's algorithm and of the bases."""
+    if 'shape' not in case or 'samples' not in case or 'Q' not in case:
+        return 0.0
+    (m, n), (M, N) = case['shape'], case['samples']
+    Qy, Qx = qpair(tuple(case['Q']) if isinstance(case['Q'], list) else case['Q'])
+    sh = case.get('shift', [0, 0])
+    return max(np.pi / (m * Qy) * (max(m, M) + abs(sh[1])) ** 2, np.pi / (n * Qx) * (max(n, N) + abs(sh[0])) ** 2)
+
+
 def tol_for(case):
+    """float64: 1e-9.  Single precision: max(5e-5, 5e-7 * longest axis, 8 * eps32 * largest phase).  Calibration on the clean tree
+    (9 600 random single-precision cases, sizes 1..513, Q in [0.3, 5], shifts up to 5): error / (eps32 * largest phase) <= 0.5,
+    one thorough-tier case at 1.2; the factor 8 leaves >= 6x margin while an index / sign / constant error is O(1)."""
     lowp = case.get('precision', 64) == 32 or case.get('dtype') in ('float32', 'complex64')
     if not lowp:
         return TOL64
     sizes = list(case.get('shape', [])) + list(case.get('samples', []))
-    return tol32(max(sizes) if sizes else 1)
+    return max(tol32(max(sizes) if sizes else 1), 8 * 1.2e-7 * phase_max(case))
 
 
 def close(a, b, tol):
